@@ -89,7 +89,7 @@ def run_case(case):
     elif k == "tables":
         coords = [tuple(p) for p in case["coords"]]
         loads = make_loads(case["loads"])
-        ghe = ghe_factory.make_ghe(coords, pipe=case["pipe"], H=case["H"], loads=loads, months=12)
+        ghe = ghe_factory.make_ghe(coords, pipe=case["pipe"], H=case["H"], loads=loads, months=case.get("months", 12), load_years=case.get("load_years"))
         captured = {}
         orig = ghe._simulate_detailed
 
@@ -100,6 +100,11 @@ def run_case(case):
         ghe._simulate_detailed = spy
         from ghedesigner.enums import TimestepType
 
+        if case.get("hourly_first"):
+            # select / size with the hybrid method, validate with the hourly one (the documented workflow), then build the tables
+            ghe._simulate_detailed = orig
+            ghe.simulate(method=TimestepType.HOURLY)
+            ghe._simulate_detailed = spy
         ghe.simulate(method=TimestepType.HYBRID)
         design = SimpleNamespace(ghe=ghe, searchTracker=[])
         om = _om.__new__(_om)
@@ -167,6 +172,9 @@ def main(run: core.Run, only=None):
         for ld in (["index"] if quick else ["office", "index", "pattern"]):
             for pipe in (["single"] if quick or f not in ("2x2", "irregular") else ["single", "double_parallel", "coaxial"]):
                 cases.append({"kind": "tables", "field": f, "coords": [list(c) for c in FIELDS[f]], "loads": ld, "pipe": pipe, "H": 100.0 if f != "L" else 73.0})
+    cases.append({"kind": "tables", "field": "2x2", "coords": [list(c) for c in FIELDS["2x2"]], "loads": "index", "pipe": "single", "H": 100.0, "months": 24, "hourly_first": True})
+    cases.append({"kind": "tables", "field": "irregular", "coords": [list(c) for c in FIELDS["irregular"]], "loads": "index", "pipe": "single", "H": 90.0, "load_years": [2024]})
+    cases.append({"kind": "tables", "field": "1", "coords": [list(c) for c in FIELDS["1"]], "loads": "office", "pipe": "coaxial", "H": 100.0, "months": 36, "hourly_first": True, "load_years": [2020]})
     run.drive(cases, family="tables")
     return run.finish(
         rule="(a) every hour of the year; (b) every quarter hour of the first 3 (quick) / 30 (thorough) years; (c) row builders on real "
